@@ -41,13 +41,13 @@ pub fn run(name: &str, bytes: Vec<u8>) -> (Vec<&'static str>, Vec<String>, usize
 }
 """
 
-REPLAY_MAIN = """use std::panic;
-fn main() {
-    let a: Vec<String> = std::env::args().collect();
-    let name = a[1].clone();
-    let hex = if a.len() > 2 { a[2].clone() } else { String::new() };
-    let bytes: Vec<u8> = (0..hex.len() / 2).map(|i| u8::from_str_radix(&hex[2 * i..2 * i + 2], 16).unwrap()).collect();
-    let n2 = name.clone();
+REPLAY_MAIN = """use std::io::BufRead;
+use std::panic;
+fn unhex(hex: &str) -> Vec<u8> {
+    (0..hex.len() / 2).map(|i| u8::from_str_radix(&hex[2 * i..2 * i + 2], 16).unwrap()).collect()
+}
+fn one(name: &str, bytes: Vec<u8>) -> Result<(Vec<&'static str>, Vec<String>, usize, bool), String> {
+    let n2 = name.to_string();
     let r = panic::catch_unwind(move || {
         if adsb_deku::verif_replay::known(&n2) {
             adsb_deku::verif_replay::run(&n2, bytes)
@@ -55,14 +55,33 @@ fn main() {
             %(common_call)s
         }
     });
-    match r {
+    r.map_err(|e| if let Some(s) = e.downcast_ref::<String>() { s.clone() } else if let Some(s) = e.downcast_ref::<&str>() { s.to_string() } else { "?".to_string() })
+}
+fn main() {
+    let a: Vec<String> = std::env::args().collect();
+    let name = a[1].clone();
+    let hex = if a.len() > 2 { a[2].clone() } else { String::new() };
+    if hex == "-" {
+        // batch mode: one hex input per stdin line, one summary line each
+        panic::set_hook(Box::new(|_| {}));
+        let stdin = std::io::stdin();
+        for line in stdin.lock().lines() {
+            let line = line.unwrap();
+            let h = line.trim();
+            match one(&name, unhex(h)) {
+                Ok((fails, _notes, checks, out)) => println!("LINE {} checks={} outside={} failed={} {}", h, checks, out, fails.len(), fails.join(" ;; ")),
+                Err(m) => println!("LINE {} PANIC {}", h, m),
+            }
+        }
+        return;
+    }
+    match one(&name, unhex(&hex)) {
         Ok((fails, notes, checks, assumed_out)) => {
             println!("REPLAY name={} checks={} outside_precondition={} failed={}", name, checks, assumed_out, fails.len());
             for f in fails { println!("FAILED-OBLIGATION: {}", f); }
             for n in notes { println!("NOTE: {}", n); }
         }
-        Err(e) => {
-            let msg = if let Some(s) = e.downcast_ref::<String>() { s.clone() } else if let Some(s) = e.downcast_ref::<&str>() { s.to_string() } else { "?".to_string() };
+        Err(msg) => {
             println!("REPLAY name={} PANIC: {}", name, msg);
         }
     }
@@ -80,8 +99,22 @@ def mods_present(mods):
     return out
 
 
+def nl_table_rs():
+    """58 transition latitudes of NL(lat), generated from the closed form of 1090-WP-9-14 and
+    rounded to the 8 decimals the standard tabulates (index 0 <-> NL 59 ... index 57 <-> NL 2)."""
+    import math
+    vals = []
+    for nl in range(59, 1, -1):
+        v = 180.0 / math.pi * math.acos(math.sqrt((1 - math.cos(math.pi / 30)) / (1 - math.cos(2 * math.pi / nl))))
+        vals.append("%.8f" % v)
+    return "//! generated at check time\npub const NL_T: [f64; 58] = [%s];\n" % ", ".join(vals)
+
+
 def splice_crate(sc, crate_dir, mods, obls, kind, crate_name):
     lines = []
+    if crate_name == "adsb_deku":
+        sc.add_file(os.path.join(crate_dir, "src", "verif_nl_table.rs"), nl_table_rs())
+        lines.append("#[cfg(any(kani, verif_native))] pub mod verif_nl_table;")
     for m, p in mods_present(mods):
         # rsadsb_common gets its own copy of the support file
         with open(p) as f:
